@@ -545,8 +545,32 @@ def r15_7(ctx):
                     if pcs != wantp:
                         bad.append("leave receives %s (expected %s, closing the buffer = %s)" % (pcs, wantp, closing))
             rows[(awaited, closing)] = True
+        visitor_callers_ob(F, r, "wiring:")
         r.ob("wiring:on_end_tag_token", not bad and len(rows) >= 3, g.site, "leave is called exactly on the awaited name with the buffered element followed by the end tag; awaited names := (answer.0, answer.1): %s" % sorted(rows, key=str) if not bad else "; ".join(sorted(set(bad))[:3]))
     ctx.run_rule("R15.7", "enter / leave wiring of the filter", body, floor=3)
+
+
+def visitor_callers(F):
+    """{operation: sorted callers} of HtmlBodyVisitor::enter / leave among the non-test local bodies"""
+    out = {"enter": set(), "leave": set()}
+    for g in F.fn_list:
+        if g.derived or g.adt == VIS:
+            continue
+        for _bi, _t, cal in g.calls():
+            if cal is not None and cal.adt == VIS and cal.name in out:
+                owner = g
+                while owner.is_closure and owner.parent and owner.parent in F.fns:
+                    owner = F.fns[owner.parent]
+                out[cal.name].add(owner.key)
+    return {k: sorted(v) for k, v in out.items()}
+
+
+def visitor_callers_ob(F, r, prefix):
+    """An element is entered at its start tag and left at its end tag, nowhere else: a visitor handed a buffer that
+    does not end with the element's end tag (at end of stream, on an error path) edits or replaces a partial element."""
+    got = visitor_callers(F)
+    want = {"enter": [HF + "::on_start_tag_token"], "leave": [HF + "::on_end_tag_token"]}
+    r.ob(prefix + "who-calls-the-visitor", got == want, F.method(HF, "end").site, "visitor.enter is called by %s, visitor.leave by %s (expected: the start-tag handler / the end-tag handler only)" % (got["enter"], got["leave"]))
 
 
 def run(ctx):
